@@ -19,6 +19,21 @@ def run(tier, seed, model):
                  "RFC 6143 parser and compared with the spec state, and with the extracted Coq model; non-trivial = "
                  "history containing at least one in-domain operation; distinct by full history")
     clientops.run_campaign(camp, model, rng, n, clientops.ALL_KINDS, 40, "C19")
+    # every Latin-1 character, alone and all 256 together: pasted text arrives as its Latin-1 bytes
+    ops = [("paste", chr(i)) for i in range(256)] + [("paste", "".join(chr(i) for i in range(256)) * 3)]
+    real, _final = clientops.run_real(8, 8, False, False, ops)
+    for op, got in zip(ops, real):
+        camp.evaluations += 1
+        camp.count("latin1-sweep")
+        want = [("ClientCutText", op[1].encode("latin-1"))]
+        parsed = clientops.parse_c2s(got) if got is not None else None
+        if parsed != want:
+            camp.oracle_failures.append({"kind": "oracle", "property": "C19",
+                                         "case": {"width": 8, "height": 8, "force_caps": False, "has_screen": False, "ops": [list(op)]},
+                                         "what": f"paste of {op[1][:8]!r} ({len(op[1])} Latin-1 character(s)): expected {str(want)[:80]}, client wrote "
+                                                 f"{'an exception' if parsed is None else str(parsed)[:80]}"})
+            break
+    camp.nontrivial.add("latin1-sweep")
     return camp
 
 
